@@ -99,7 +99,12 @@ def kani_route(pid, tier):
                 detail += "\nreason: " + str(d["reason"])
             detail += "\ncmd: " + str(d.get("cmd"))
         o = pl.Obligation("kani", "harness", d["harness"], st, detail, [pid], d.get("what") or d.get("bound") or "Kani harness on the real code")
-        o.has_cex = bool(d.get("counterexample"))
+        # a failed native enumeration prints the first failing input in its panic message: that is a concrete input on the real code
+        native_fail = str(d.get("kind", "")).startswith("native") and st == "failed" and bool(d.get("failed_checks"))
+        if native_fail:
+            detail = "FAILING INPUT on the real code (panic message of the native enumeration):\n  " + "\n  ".join(d.get("failed_checks", [])[:4]) + "\n" + detail
+        o.detail = detail
+        o.has_cex = bool(d.get("counterexample")) or native_fail
         obs.append(o)
     if not rows:
         raise Undecided("kani_check produced no harness results (rc=%d): %s" % (p.returncode, (p.stderr or p.stdout)[-600:]))
